@@ -80,12 +80,19 @@ def doForward (a : Json) : Except String Json := do
   match forwardRequest r with
   | none => pure <| J.obj [("accepted", J.bool false), ("upgrade", J.bool upgrade)]
   | some u =>
-    let resp := relayResponse closeIdle upStatus upLines upBody
+    -- when the upstream writes (ms); absent = at once. The deadlines are the code's, read off the regenerated transport literal
+    let timing : Timing := match J.optObj up "timing" with
+      | some tj => { beforeStatus := (J.getNat tj "beforeStatus").toOption.getD 0, beforeBody := (J.getNat tj "beforeBody").toOption.getD 0,
+                     gaps := ((J.getIntList tj "gaps").toOption.getD []).map Int.toNat }
+      | none => ⟨0, 0, []⟩
+    let (resp, gatewayError) := match relayTimed codeDeadlines timing closeIdle upStatus upLines upBody with
+      | .relayed r => (r, false)
+      | .gatewayError => (({ status := 502, headers := [], body := [] } : Resp), true)
     let upParsed := upstreamResponseHeaders upLines
     let canonU : UpReq := { u with headers := canonReqHeaders r.lines u.headers }
     let canonR : Resp := { resp with headers := canonRespHeaders upStatus upParsed resp.headers }
     pure <| J.obj [
-      ("accepted", J.bool true), ("upgrade", J.bool upgrade),
+      ("accepted", J.bool true), ("upgrade", J.bool upgrade), ("gatewayError", J.bool gatewayError),
       ("upgradeType", J.hex (upgradeType (director h0))),
       ("up", encodeUpReq r.lines u),
       ("client", J.obj [("status", J.nat resp.status), ("headers", encodeHdr canonR.headers), ("body", J.hex resp.body)]),
@@ -152,6 +159,19 @@ def doJudgeTerm (a : Json) : Except String Json := do
   pure <| J.obj [("outcome", encodeOutcome out), ("wellFormed", J.bool (wellFormed o)), ("matchesRow", J.bool row),
                  ("retryAfterDemanded", J.bool (retryAfterDemanded o flowControlled s.resource))]
 
+def encodeMs (l : List (String × Nat)) : Json :=
+  Json.arr (l.map fun e => J.obj [("name", Json.str e.1), ("ms", J.nat e.2)]).toArray
+
+/-- the regenerated time-out constants of the transport / rest config (the harness makes its delays straddle them) and what the
+    model makes of them -/
+def doDeadlines (_ : Json) : Except String Json :=
+  pure <| J.obj [
+    ("transport", encodeMs Gen.C04.transportDurationsMs),
+    ("fallbackDialer", encodeMs Gen.C04.fallbackDialerMs),
+    ("restConfig", encodeMs Gen.C04.restConfigDurationsMs),
+    ("restDialer", encodeMs Gen.C04.restDialerMs),
+    ("responseHeaderMs", match codeDeadlines.responseHeader with | some d => J.int d | none => J.int (-1))]
+
 def handle (m : String) (a : Json) : Option (Except String Json) :=
   match m with
   | "url" => some (doUrl a)
@@ -159,6 +179,7 @@ def handle (m : String) (a : Json) : Option (Except String Json) :=
   | "judge" => some (doJudge a)
   | "decide" => some (doDecide a)
   | "judgeTerm" => some (doJudgeTerm a)
+  | "deadlines" => some (doDeadlines a)
   | _ => none
 
 end KG.Driver.C04
